@@ -32,6 +32,9 @@ func (store *KeyBackuper) Export(exportIDs []keystoreV1.ExportID, mode keystoreV
 		if err != nil {
 			log.WithError(err).Fatal("Failed to list available keys")
 		}
+		// "all keys" is a selection marker, not a content flag: like keystore v1 it means every key ring
+		// with its private and symmetric key material
+		mode = keystoreV1.ExportPrivateKeys
 	}
 
 	if len(exportIDs) != 0 {
